@@ -102,7 +102,13 @@ impl Cursor {
             }
             What::FEnd => self.closed = self.opened,
             What::Gecko { last } | What::SplitUnknown { last, .. } => self.splitting = !*last,
-            What::End { .. } => self.end_seen = true,
+            What::End { .. } => {
+                self.end_seen = true;
+                if !m.has_fend() {
+                    // the game is over: the last occurrence of a pre-3.0 game is complete as well
+                    self.closed = self.opened;
+                }
+            }
             _ => {}
         }
     }
